@@ -249,6 +249,10 @@ pub fn run(prop: PathProp, tier: Tier, seed: u64) -> i32 {
                 _ => 0.1,
             });
             let mut sc = make_scenario(&mut r, &cfg);
+            if prop == PathProp::C01 && cfg.host == Hostility::InvalidStart && r.bool(0.3) {
+                sc.problem.put_goal_on_start();
+                b.count("invalid_start_inside_the_goal", 1);
+            }
             odd_start(prop, &mut r, &mut sc, &mut b);
             multi_start(prop, &mut r, &mut sc, &mut b);
             run_case(prop, &ctx, &mut b, &sc);
@@ -293,6 +297,7 @@ pub fn run(prop: PathProp, tier: Tier, seed: u64) -> i32 {
     let (rule, assumptions): (&str, Vec<&str>) = match prop {
         PathProp::C01 => {
             ctx.require("invalid_start_cases");
+            ctx.require("invalid_start_inside_the_goal");
             ("cases = planner runs (4 planners x 6 space families, generated worlds incl. start marginally/deeply inside an obstacle and goal regions overlapping or covered by obstacles, planner-RNG and scripted sample sequences, virtual-time iteration budgets; plus re-setup histories with a changed checker, and degenerate-metric cases in which invalid states at distance exactly 0 from the start - a different value of a zero-weight component, the antipodal quaternion - are offered as goal / uniform samples); every state of every returned path is re-evaluated with the pure validity function; distinct+non-trivial = distinct returned paths (bit pattern) with >= 3 states", vec!["the validity function is pure and deterministic (built from slab / shell primitives)", "an invalid start must yield InvalidStartState from an initialised planner (PRM: non-empty roadmap)"])
         }
         PathProp::C02 => ("cases = planner runs as for C01 on feasible-looking worlds, call histories with replaced problems, and degenerate-metric cases (tree nodes / milestones at distance exactly 0 from the start that are different states: zero-weight component twins, antipodal quaternions); first state compared bit for bit with the installed start, goal predicate re-evaluated on the last state; distinct+non-trivial = distinct returned paths with >= 3 states", vec!["histories with re-setup / replaced problems are exercised by the C08 workload, which applies the same endpoint oracle"]),
